@@ -94,8 +94,9 @@ def oracle(ctx, case, ans, canon_log):
     cyc = [c for c, _ in entries]
     if any(b < a for a, b in zip(cyc, cyc[1:])):
         ctx.report(["rs", "clock_backwards"], f"resumption cycles not monotone: {cyc}", {"case": fmt(case), "answer": ans})
-    # budget independence: prefix of the canonical (single big budget) log
-    if canon_log is not None and entries != canon_log[:len(entries)]:
+    # budget independence: the log and the canonical (single big budget) log are prefix-comparable - the longer run extends the shorter
+    nc = min(len(entries), len(canon_log)) if canon_log is not None else 0
+    if canon_log is not None and entries[:nc] != canon_log[:nc]:
         ctx.report(["rs", "order_depends_on_budgets"], f"resumption log {entries[:12]} is not a prefix of the single-budget log {canon_log[:12]}", {"case": fmt(case), "answer": ans})
     # events: exactly once, in emission order (first emit of each resumption)
     returned = [int(r.split(":")[0][1:]) for r in res.split(";") if r.startswith("U")]
